@@ -69,7 +69,7 @@ def spec_matchers(tier):
 
 
 # the FastDataset index-selection arms that the 2-operation quick set does not reach: swept with 1-operation histories
-QUICK_K1 = ["c01_fd_0010", "c01_fd_0011", "c01_fd_0100", "c01_fd_0111", "c01_fd_1001", "c01_fd_1011", "c01_fd_1100", "c01_fd_1101", "c01_fd_1110"]
+QUICK_K1 = ["c01_fd_0010", "c01_fd_0011", "c01_fd_0100", "c01_fd_1001", "c01_fd_1100"]   # the three-constant arms (0111, 1011, 1101, 1110: 100-300 s each) are in the thorough tier only
 
 
 def spec_k1(tier):
@@ -77,7 +77,7 @@ def spec_k1(tier):
     for h in sp.harnesses:
         h.unwind = 4
         h.note = "history of 1 symbolic insert/remove operation, then one pattern query (covers the remaining index-selection arms cheaply)"
-    sp.bounds = ["histories of 1 symbolic operation; the 9 FastDataset pattern shapes not in the 2-operation quick set (fd_1111 does not finish: out of memory)", "ordered-set model capacity 1; loop unwind 4"]
+    sp.bounds = ["histories of 1 symbolic operation; the FastDataset pattern shapes with one or two constants that are not in the 2-operation quick set (three-constant shapes: thorough tier; fd_1111 does not finish)", "ordered-set model capacity 1; loop unwind 4"]
     return sp
 
 
